@@ -1,12 +1,13 @@
 (* C16 Remote calls are answered exactly once and correctly paired.
    Property theorems only; proofs live in proofs/RpcProofs.v; the model is model/Rpc.v; the facts
    read from stepup/core/rpc.py and director.py are in gen/GenRpc.v (regenerated every run). *)
-From Coq Require Import List Arith NArith Bool.
+From Coq Require Import List Arith NArith Bool Lia.
 From SV Require Import lib.Bytes.
 From SV Require Import lib.RpcTypes.
 From SV Require Import gen.GenRpc.
 From SV Require Import model.Rpc.
 From SV Require Import proofs.RpcProofs.
+From SV Require Import proofs.RpcLive.
 Import ListNotations.
 Open Scope N_scope.
 
@@ -178,6 +179,42 @@ Theorem C16_never_stuck :
     status_of (run classify handler c ([EvStop; EvSendFail] ++ completes c)) <> StUp.
 Proof. exact never_stuck. Qed.
 
+(* Liveness under fairness.  The environment is ANY infinite schedule of events (bytes in any
+   fragmentation, completions in any order, stop / garbage / peer gone at any time); st n is the
+   connection after the first n events.  Hypotheses (about the environment, not about rpc.py):
+   (1) a handler in flight eventually ends (handlers terminate, a cancelled one too);
+   (2) a pending writer.drain() eventually returns or raises ConnectionError;
+   (3) the client does not reuse a call id on this connection (_next_call_id counts up).
+   Then every request a task was created for is eventually answered on the wire, or its reply is
+   dropped on a connection that is no longer up (stop(), peer gone, send failure or a failed
+   loop): the peer then sees the connection end, and the client fails every pending call with
+   ConnectionResetError (C16_client_pairs_by_id, third part). *)
+Theorem C16_eventually_answered_or_connection_down :
+  forall classify handler (sched : nat -> event),
+    let st := RpcLive.st classify handler sched in
+    (forall n id, In id (inflight_ids (st n)) -> exists d o, sched (n + d)%nat = EvComplete id o) ->
+    (forall n, draining (st n) = true ->
+               exists d, sched (n + d)%nat = EvSent \/ sched (n + d)%nat = EvSendFail) ->
+    (forall n, NoDup (c_received (st n))) ->
+    forall n id, In id (c_received (st n)) ->
+      exists m, (n <= m)%nat /\
+        (In id (map fst (c_wire (st m)))
+         \/ (In id (map fst (c_dropped (st m))) /\ conn_up (st m) = false)).
+Proof. exact eventually_answered_or_down. Qed.
+
+(* Two facts the liveness argument rests on, for arbitrary finite histories: a reply object, once
+   produced, is never destroyed (it only moves queue -> wire or queue -> dropped), and replies
+   wait in the queue only while a drain is pending. *)
+Theorem C16_reply_objects_persist :
+  forall classify handler (c : conn) (e : event) id,
+    (cnt id (reply_ids c) <= cnt id (reply_ids (step classify handler c e)))%nat.
+Proof. exact step_R. Qed.
+
+Theorem C16_queue_only_while_draining :
+  forall classify handler (c : conn) (e : event),
+    qinv c /\ ainv c -> qinv (step classify handler c e) /\ ainv (step classify handler c e).
+Proof. exact step_inv. Qed.
+
 (* ---------- the hypotheses are satisfiable / non-trivial instances ---------- *)
 
 Example C16_example_framing :
@@ -220,3 +257,47 @@ Example C16_example_client :
                              CRecv (encode_msg 3 (Some [8])); CPeerGone] in
   k_done k = [(2, CRBody (Some [9])); (1, CRConnLost)] /\ k_pending k = [] /\ k_counter k = 3.
 Proof. vm_compute. repeat split; reflexivity. Qed.
+
+(* the fairness hypotheses are satisfiable: two calls completed out of order, then drains *)
+Example C16_example_fair_schedule :
+  let classify (b : str) := match b with [1] | [2] => Some (mk_rq [119] true None) | _ => None end in
+  let handler (n : str) := match n with [119] => LAllowed | _ => LMissing end in
+  let stream := encode_msg 1 (Some [1]) ++ encode_msg 2 (Some [2]) in
+  let sched (n : nat) := match n with
+                         | 0%nat => EvRecv stream | 1%nat => EvComplete 2 OReturn
+                         | 2%nat => EvComplete 1 (ORaise false) | _ => EvSent end in
+  let st := RpcLive.st classify handler sched in
+  (forall n id, In id (inflight_ids (st n)) -> exists d o, sched (n + d)%nat = EvComplete id o)
+  /\ (forall n, draining (st n) = true -> exists d, sched (n + d)%nat = EvSent \/ sched (n + d)%nat = EvSendFail)
+  /\ (forall n, NoDup (c_received (st n)))
+  /\ c_wire (st 5%nat) = [(2, KOk); (1, KGeneric)].
+Proof.
+  cbv zeta.
+  set (classify := fun b : str => match b with [1] | [2] => Some (mk_rq [119] true None) | _ => None end).
+  set (handler := fun n : str => match n with [119] => LAllowed | _ => LMissing end).
+  set (sched := fun n : nat => match n with
+                         | 0%nat => EvRecv (encode_msg 1 (Some [1]) ++ encode_msg 2 (Some [2]))
+                         | 1%nat => EvComplete 2 OReturn
+                         | 2%nat => EvComplete 1 (ORaise false) | _ => EvSent end).
+  assert (Late : forall n, (3 <= n)%nat -> sched n = EvSent).
+  { intros n H. destruct n as [|[|[|n]]]; try lia; reflexivity. }
+  assert (Fix : forall n, (5 <= n)%nat -> RpcLive.st classify handler sched n = RpcLive.st classify handler sched 5).
+  { induction n as [|n IH]; intros H; [lia|].
+    destruct (Nat.eq_dec (S n) 5) as [E|Hne]; [rewrite E; reflexivity|].
+    cbn [RpcLive.st]. rewrite IH by lia. rewrite Late by lia. vm_compute. reflexivity. }
+  assert (Small : forall n, (n < 5)%nat -> n = 0%nat \/ n = 1%nat \/ n = 2%nat \/ n = 3%nat \/ n = 4%nat) by (intros; lia).
+  split; [|split; [|split]].
+  - intros n id Hin. destruct (le_lt_dec 5 n) as [H|H].
+    + rewrite Fix in Hin by exact H. vm_compute in Hin. destruct Hin.
+    + destruct (Small n H) as [-> | [-> | [-> | [-> | ->]]]]; vm_compute in Hin.
+      * destruct Hin.
+      * destruct Hin as [<- | [<- | []]]; [exists 1%nat, (ORaise false)|exists 0%nat, OReturn]; reflexivity.
+      * destruct Hin as [<- | []]. exists 0%nat, (ORaise false). reflexivity.
+      * destruct Hin.
+      * destruct Hin.
+  - intros n _. exists (3 - n + 0)%nat. left. apply Late. lia.
+  - intros n. destruct (le_lt_dec 5 n) as [H|H].
+    + rewrite Fix by exact H. vm_compute. repeat constructor; cbn; intuition congruence.
+    + destruct (Small n H) as [-> | [-> | [-> | [-> | ->]]]]; vm_compute; repeat constructor; cbn; intuition congruence.
+  - vm_compute. reflexivity.
+Qed.
